@@ -195,11 +195,11 @@ def correspondence(ctx, evals, misses, tag='q'):
     texts = []
     step = 250
     for s in range(0, len(ecases), step):
-        texts.append(HEADER + 'Definition cases := [\n%s\n].\nEval vm_compute in mismatches okcase 0 cases.\n'
+        texts.append(HEADER + 'Definition cases : list (list (Q * ev Qops) * ev Qops) := [\n%s\n].\nEval vm_compute in mismatches okcase 0 cases.\n'
                      % ';\n'.join(ecases[s:s + step]))
     nE = len(texts)
     for s in range(0, len(mcases), step):
-        texts.append(HEADER + 'Definition cases := [\n%s\n].\nEval vm_compute in mismatches okmiss 0 cases.\n'
+        texts.append(HEADER + 'Definition cases : list (list (str * bool) * list str * res unit) := [\n%s\n].\nEval vm_compute in mismatches okmiss 0 cases.\n'
                      % ';\n'.join(mcases[s:s + step]))
     outs = vlib.run_cases_sharded('c01_' + tag, texts)
     badE, badM = [], []
